@@ -55,6 +55,10 @@ Theorem C04_chunking : forall (chunks : list (list N)) (fuel : nat),
     /\ sbuf s' = snd (prod_munch (concat chunks)).
 Proof. exact chunking. Qed.
 
+(* 3b. the linear evaluation function used by the case files is the specification *)
+Lemma C04_fast_decode : forall s : list N, prod_decode_fast s = fst (prod_decode s).
+Proof. exact fast_decode. Qed.
+
 (* 4. the literal key table (re-checked on the regenerated automaton): every self-delimiting
    sequence of the table decodes to the key the table names *)
 Theorem C04_key_table : forall (w rest : list N),
@@ -73,7 +77,8 @@ Theorem C04_xterm_keys_upto_mask7 : forall (k : kname) (mods : N) (alt_form : bo
   prod_decode (print (RXterm k mods alt_form) ++ rest) = (EKey k mods :: fst (prod_decode rest), snd (prod_decode rest)).
 Proof. exact xterm_keys_decode. Qed.
 
-Theorem C04_key_mask8_refuted :
+(* (witness of a known finding: a lemma, not counted as an obligation) *)
+Lemma C04_key_mask8_refuted :
   wf decmode_all prod_key_table (RXterm KUp 8 false) = true
   /\ print (RXterm KUp 8 false) = [27; 91; 49; 59; 57; 65]
   /\ fst (prod_decode (print (RXterm KUp 8 false)))
@@ -111,7 +116,8 @@ Proof. exact sort_dedup_spec. Qed.
    through events: a terminal in reverse video answering the library's own FaceGet loses REVERSE
    although Face can carry it); for strings without these parameters this is the reference machine
    itself and part of C04_single_partial *)
-Theorem C04_face_report_recorded : forall (p rest : list N),
+(* (pins the recorded defect: a lemma, not counted as an obligation) *)
+Lemma C04_face_report_recorded : forall (p rest : list N),
   sgr_wf p = true ->
   prod_decode (print (RFaceReport p) ++ rest) = (face_report_recorded p :: fst (prod_decode rest), snd (prod_decode rest)).
 Proof. exact face_report_recorded_decode. Qed.
